@@ -291,22 +291,25 @@ Qed.
 End Spec.
 
 (* ---------------- __torch_function__ ---------------- *)
-Lemma torch_function_handled name lt lts leaves : handled name = true ->
-  torch_function (Some name) (Some leaves) (lt :: lts) =
+Lemma torch_function_handled name lt lts kws leaves : handled name = true -> lts ++ kws = lt :: nil \/ (exists r, lts ++ kws = lt :: r) ->
+  torch_function (Some name) (Some leaves) lts kws =
   TFData (map (fun l => fst (wrap_leaf lt l)) leaves) (map (fun l => snd (wrap_leaf lt l)) leaves).
-Proof. intros H. unfold torch_function. rewrite H. now rewrite !map_map. Qed.
+Proof.
+  intros H E. unfold torch_function. rewrite H.
+  destruct E as [E|[r E]]; rewrite E; now rewrite !map_map.
+Qed.
 
 Lemma wrap_leaf_plain lt shp :
   wrap_leaf lt (LPlain shp) = (LLie (Some lt) shp, negb (last_is shp (dimension lt))).
 Proof. reflexivity. Qed.
 
-Lemma torch_function_unhandled name leaves lts : handled name = false ->
-  torch_function (Some name) (Some leaves) lts = TFData leaves (map (fun _ => false) leaves).
+Lemma torch_function_unhandled name leaves lts kws : handled name = false ->
+  torch_function (Some name) (Some leaves) lts kws = TFData leaves (map (fun _ => false) leaves).
 Proof. intros H. unfold torch_function. now rewrite H. Qed.
 
-Lemma torch_function_kwargs_only name leaves : handled name = true ->
-  torch_function (Some name) (Some leaves) [] = TFIndexError.
-Proof. intros H. unfold torch_function. now rewrite H. Qed.
+Lemma torch_function_old_kwargs_only name leaves kws : handled name = true ->
+  torch_function_old (Some name) (Some leaves) [] kws = TFIndexError.
+Proof. intros H. unfold torch_function_old, torch_function. now rewrite H. Qed.
 
 (* ---------------- the concrete operations ---------------- *)
 Section LieSpec.
@@ -367,8 +370,8 @@ End LieSpec.
 (* the decision of LieTensor.__torch_function__ *)
 Theorem wrap_decision name :
   (handled name = true ->
-     (forall lt lts leaves, exists out warn,
-        torch_function (Some name) (Some leaves) (lt :: lts) = TFData out warn /\
+     forall lt rest lts kws leaves, lts ++ kws = lt :: rest -> exists out warn,
+        torch_function (Some name) (Some leaves) lts kws = TFData out warn /\
         length out = length leaves /\ length warn = length leaves /\
         forall n, n < length leaves ->
           match nth n leaves LOther with
@@ -376,22 +379,19 @@ Theorem wrap_decision name :
                           nth n warn false = negb (last_is shp (dimension lt))
           | l => nth n out LOther = l /\ nth n warn false = false
           end) /\
-     (forall leaves, torch_function (Some name) (Some leaves) [] = TFIndexError)) /\
   (handled name = false ->
-     forall leaves lts, torch_function (Some name) (Some leaves) lts = TFData leaves (map (fun _ => false) leaves)) /\
-  (forall lts, torch_function (Some name) None lts = TFNone).
+     forall leaves lts kws, torch_function (Some name) (Some leaves) lts kws = TFData leaves (map (fun _ => false) leaves)) /\
+  (forall lts kws, torch_function (Some name) None lts kws = TFNone).
 Proof.
   split; [|split].
-  - intros H. split.
-    + intros lt lts leaves. rewrite torch_function_handled by exact H.
-      eexists; eexists; split; [reflexivity|]. rewrite !map_length. split; [reflexivity|]. split; [reflexivity|].
-      intros n Hn.
-      rewrite (nth_indep (map (fun l => fst (wrap_leaf lt l)) leaves) LOther (fst (wrap_leaf lt LOther))) by (rewrite map_length; exact Hn).
-      rewrite (nth_indep (map (fun l => snd (wrap_leaf lt l)) leaves) false (snd (wrap_leaf lt LOther))) by (rewrite map_length; exact Hn).
-      rewrite (map_nth (fun l => fst (wrap_leaf lt l))), (map_nth (fun l => snd (wrap_leaf lt l))).
-      destruct (nth n leaves LOther); simpl; auto.
-    + intros leaves. now apply torch_function_kwargs_only.
-  - intros H leaves lts. now apply torch_function_unhandled.
+  - intros H lt rest lts kws leaves E. rewrite (torch_function_handled name lt lts kws leaves H) by (right; eauto).
+    eexists; eexists; split; [reflexivity|]. rewrite !map_length. split; [reflexivity|]. split; [reflexivity|].
+    intros n Hn.
+    rewrite (nth_indep (map (fun l => fst (wrap_leaf lt l)) leaves) LOther (fst (wrap_leaf lt LOther))) by (rewrite map_length; exact Hn).
+    rewrite (nth_indep (map (fun l => snd (wrap_leaf lt l)) leaves) false (snd (wrap_leaf lt LOther))) by (rewrite map_length; exact Hn).
+    rewrite (map_nth (fun l => fst (wrap_leaf lt l))), (map_nth (fun l => snd (wrap_leaf lt l))).
+    destruct (nth n leaves LOther); simpl; auto.
+  - intros H leaves lts kws. now apply torch_function_unhandled.
   - reflexivity.
 Qed.
 
